@@ -1981,3 +1981,64 @@ package connect
 //@   implements protocolHandler.ContentTypes
 //@   assigns nothing
 //@   ensures res == g.accept
+
+// ---------------------------------------------------------------------------
+// protocol_connect.go: the unary body writer (C01, C05, C08): the body is the
+// encoded message, compressed exactly when a pool was negotiated and the
+// encoding is at least compressMinBytes long - and exactly then the
+// Content-Encoding header names the algorithm.
+// ---------------------------------------------------------------------------
+
+//@ func (*connectUnaryMarshaler).write(m, data) res
+//@   tags C01, C05, C08
+//@   requires m != nil && m.writer != nil && !pooled(m.writer)
+//@   assigns out(m.writer)
+//@   ensures res == nil ==> out(m.writer) == old(out(m.writer)) ++ seq(data)   // label: all-bytes-written-on-success
+//@   ensures res != nil ==> coded(res)
+//@ func (*connectUnaryMarshaler).Marshal(m, message) res
+//@   tags C01, C05, C08
+//@   requires m != nil && m.writer != nil && !pooled(m.writer) && m.codec != nil && m.bufferPool != nil && m.header != nil
+//@   assigns out(m.writer), mapof(m.header), mapvals(m.header)
+//@   ensures res == nil ==> (let d := menc(m.codec, mval(message)) in (if |d| < m.compressMinBytes || m.compressionPool == nil then out(m.writer) == old(out(m.writer)) ++ d else out(m.writer) == old(out(m.writer)) ++ compBy(m.compressionPool.compressors, d)))   // label: body-is-the-encoded-message-compressed-iff-negotiated-and-large-enough
+//@   ensures res == nil && !(|menc(m.codec, mval(message))| < m.compressMinBytes || m.compressionPool == nil) ==> hvals(m.header, "Content-Encoding") == [m.compressionName]   // label: a-compressed-body-is-labelled   // tags: C05, C08
+//@   ensures |menc(m.codec, mval(message))| < m.compressMinBytes || m.compressionPool == nil ==> (forall k seq :: {mapval(m.header, k)} mapdom(m.header, k) == old(mapdom(m.header, k)) && mapval(m.header, k) == old(mapval(m.header, k)))   // label: an-uncompressed-body-is-not-labelled   // tags: C05, C08
+//@   ensures res != nil ==> coded(res)
+
+// ---------------------------------------------------------------------------
+// The conns' Send / Receive: one call of the marshaler / unmarshaler with the
+// caller's message; its error is returned as it is, and success is a true nil
+// (never a nil *Error in an error interface: the typed-nil obligation).
+// ---------------------------------------------------------------------------
+
+//@ func (*connectUnaryClientConn).Send(cc, msg) err
+//@   tags C01, C02
+//@   requires cc != nil && cc.marshaler.writer != nil && !pooled(cc.marshaler.writer) && cc.marshaler.codec != nil && cc.marshaler.bufferPool != nil && cc.marshaler.header != nil
+//@   assigns out(cc.marshaler.writer), mapof(cc.marshaler.header), mapvals(cc.marshaler.header)
+//@   ensures (err == nil) == (callres("(*connectUnaryMarshaler).Marshal", 1) == nil) && (err != nil ==> err == callres("(*connectUnaryMarshaler).Marshal", 1))   // label: the-marshaler's-verdict-is-returned
+//@   assert@call((*connectUnaryMarshaler).Marshal#1): arg1 == msg
+//@ func (*connectUnaryHandlerConn).Send(hc, msg) err
+//@   tags C01, C05, C11
+//@   requires hc != nil && hc.responseWriter != nil && hdrOf(hc.responseWriter) != nil && hdrOf(hc.responseWriter) != hc.responseTrailer
+//@   requires hc.marshaler.writer != nil && !pooled(hc.marshaler.writer) && hc.marshaler.codec != nil && hc.marshaler.bufferPool != nil && hc.marshaler.header != nil
+//@   assigns everything
+//@   ensures hc.wroteBody   // label: close-will-not-rewrite-the-headers
+//@   ensures (err == nil) == (callres("(*connectUnaryMarshaler).Marshal", 1) == nil) && (err != nil ==> err == callres("(*connectUnaryMarshaler).Marshal", 1))   // label: the-marshaler's-verdict-is-returned
+//@   assert@call((*connectUnaryMarshaler).Marshal#1): arg1 == msg && called("(*connectUnaryHandlerConn).writeResponseHeader", 1)   // label: headers-and-trailers-are-written-before-the-body   // tags: C11, C05
+//@ func (*connectStreamingClientConn).Send(cc, msg) err
+//@   tags C01
+//@   requires cc != nil && envOK(cc.marshaler.envelopeWriter)
+//@   assigns out(cc.marshaler.envelopeWriter.writer)
+//@   ensures (err == nil) == (callres("(*envelopeWriter).Marshal", 1) == nil) && (err != nil ==> err == callres("(*envelopeWriter).Marshal", 1))   // label: the-marshaler's-verdict-is-returned
+//@   assert@call((*envelopeWriter).Marshal#1): arg1 == msg
+//@ func (*connectStreamingHandlerConn).Send(hc, msg) err
+//@   tags C01
+//@   requires hc != nil && hc.responseWriter != nil && envOK(hc.marshaler.envelopeWriter)
+//@   assigns out(hc.marshaler.envelopeWriter.writer)
+//@   ensures (err == nil) == (callres("(*envelopeWriter).Marshal", 1) == nil) && (err != nil ==> err == callres("(*envelopeWriter).Marshal", 1))   // label: the-marshaler's-verdict-is-returned
+//@   assert@call((*envelopeWriter).Marshal#1): arg1 == msg
+//@ func (*grpcClientConn).Send(cc, msg) err
+//@   tags C01
+//@   requires cc != nil && envOK(cc.marshaler.envelopeWriter)
+//@   assigns out(cc.marshaler.envelopeWriter.writer)
+//@   ensures (err == nil) == (callres("(*envelopeWriter).Marshal", 1) == nil) && (err != nil ==> err == callres("(*envelopeWriter).Marshal", 1))   // label: the-marshaler's-verdict-is-returned
+//@   assert@call((*envelopeWriter).Marshal#1): arg1 == msg
